@@ -185,7 +185,7 @@ def carried(dst, src):
 
 
 # ============================================================================ safe_text
-c = contract(GR, "safe_text", ["C08"])
+c = contract(GR, "safe_text", ["C08", "C06"])
 c.param("value", ANY)
 c.result = VAL
 c.modifies = lambda S_: []
@@ -193,7 +193,7 @@ c.ens("encodable-text-and-other-values-unchanged", lambda S_: Implies(
     Or(Not(Val.is_VStr(S_.a.value)), Utf8Ok(sv(S_.a.value))), S_.result == S_.a.value))
 c.ens("result-is-encodable-text", lambda S_: Implies(Val.is_VStr(S_.a.value), text_ok(S_.result)))
 # the statement asks for *every* field unchanged, lone surrogates included: a protobuf string cannot carry them
-c.ens("text-unchanged-even-when-not-encodable", lambda S_: S_.result == S_.a.value)
+c.ens("text-unchanged-even-when-not-encodable", lambda S_: S_.result == S_.a.value, props=["C08"])
 
 
 # ============================================================================ shapes the collector produces
@@ -603,7 +603,7 @@ def _snapshot_domain(S_):
                                       Or(Val.is_VNone(h.f(w, "_result")), Val.is_VNone(h.f(w, "_error"))))))
 
 
-c = contract(PU, "convert_snapshot", ["C08"])
+c = contract(PU, "convert_snapshot", ["C08", "C06"])
 c.param("snapshot", OBJ("EventSnapshot"))
 c.init_ghost = _snapshot_shapes
 c.req("a-watch-has-a-result-or-an-error-never-both", _snapshot_domain)
@@ -745,6 +745,10 @@ def _build_log(S_, kind):
     pv = S_.calls("provide")
     if len(gp) != 1:
         return [("provider-looked-up-once-with-the-service-config", "LOG", z3.BoolVal(False), None)]
+    if gp[0].raised or gp[0].result is None or any(e.raised or e.result is None for e in pv):
+        # a provider that cannot be loaded, or that fails, must not be turned into "no metadata" (which would then be
+        # cached and sent with every later request)
+        return [("a-failing-provider-is-not-replaced-by-empty-metadata", "POST", z3.BoolVal(False), None)]
     out = [("provider-looked-up-once-with-the-service-config", "LOG", gp[0].args[0] == S_.old.f(S_.a.self, "_config"), None)]
     if pv:
         out.append(("metadata-is-what-the-provider-supplies", "POST", And(
